@@ -143,6 +143,16 @@ def r2_oldpin(ctx, prog):
                     bad = ('the old PIN check failed but a PIN is changed / the call succeeds', oc)
                 elif ok and may_succeed(oc) and len([i for i in sets if evs[i][2] and evs[i][2][0] == 'token']) != 1:
                     bad = ('a successful change does not persist exactly one PIN blob to the token store', oc)
+                elif ok and may_succeed(oc):
+                    # the manager whose blob was persisted must be (or become) the live one, else memory and disk disagree about the PIN
+                    pe = [evs[i] for i in sets if evs[i][2] and evs[i][2][0] == 'token'][0]
+                    m = re.fullmatch(r'get\w+PINBlob\((\w+)\)', pe[2][1]) if len(pe[2]) > 1 else None
+                    src = m.group(1) if m else None
+                    became = [e for e in evs if e[0] == 'write' and e[1] == 'sdm' and e[2] == src]
+                    if src is None:
+                        bad = ('the persisted blob %s is not taken from a SecureDataManager' % (pe[2][1:],), oc)
+                    elif src != 'sdm' and not became:
+                        bad = ('the new PIN is persisted from %s but the live SecureDataManager keeps the old one: until the next restart the old PIN still authenticates' % src, oc)
                 if bad:
                     break
             if bad:
